@@ -1128,6 +1128,16 @@ def make_array_body(shapes):
                                 fails = []
                                 vals = _in_claim([pool[(k + i) % len(pool)] for i in range(n)], p)
                                 data = numpy.array(vals, dtype=float).reshape(shape)
+                                # memory layout of the array handed to the writer must not matter (index order is what
+                                # is written): rotate through C-ordered, Fortran-ordered, transposed-view and reversed-view
+                                # inputs holding the same values at the same indices
+                                lay = k % 4
+                                if lay == 1:
+                                    data = numpy.asfortranarray(data)
+                                elif lay == 2 and data.ndim >= 2:
+                                    data = numpy.ascontiguousarray(data.T).T
+                                elif lay == 3:
+                                    data = numpy.ascontiguousarray(data[::-1])[::-1]
                                 comments = [COMMENTS[(k + j) % len(COMMENTS)] for j in range(ncom)]
                                 path = os.path.join(tmpdir, 'arr.txt')
                                 try:
